@@ -1,5 +1,6 @@
 """Property-specific engines (beyond the common event correspondence + monitors)."""
 import json, os, re
+from engine_c19 import engine_C19
 
 
 def run(pid, tier, seed, ctx):
